@@ -131,11 +131,11 @@ type world struct {
 }
 
 func identValues(mod string) []string {
-	// m0: b0 <- d1 <- d2 ; m1: e1 <- m0:d1
+	// m0: b0 <- d1 <- d2 ; m1: e1 <- m0:d1, d2 <- m0:b0 (m0:d2 and m1:d2 are two identities of one name)
 	if mod == "m0" {
-		return []string{"d1", "d2", "m1:e1"}
+		return []string{"d1", "d2", "m1:e1", "m1:d2"}
 	}
-	return []string{"m0:d1", "m0:d2", "e1"}
+	return []string{"m0:d1", "m0:d2", "e1", "d2"}
 }
 
 func (x *gen) leaf(w *world, mod string, name string, allowEmpty bool) *sg.Node {
@@ -245,7 +245,7 @@ func schemaAndWorld(g *sg.G) ([]*sg.Mod, *world) {
 	w := &world{vals: map[string]leafInfo{}, mod: map[string]string{}}
 	m0 := &sg.Mod{Name: "m0", Prefix: "m0", Identities: []*sg.Identity{{Name: "b0"}, {Name: "d1", Base: "b0"}, {Name: "d2", Base: "d1"}},
 		Typedefs: []*sg.Typedef{{Name: "percent", Type: &sg.TypeSpec{Name: "uint8", Range: "0..100"}}}}
-	m1 := &sg.Mod{Name: "m1", Prefix: "m1", Imports: []sg.Import{{Mod: "m0", Prefix: "m0"}}, Identities: []*sg.Identity{{Name: "e1", Base: "m0:d1"}}}
+	m1 := &sg.Mod{Name: "m1", Prefix: "m1", Imports: []sg.Import{{Mod: "m0", Prefix: "m0"}}, Identities: []*sg.Identity{{Name: "e1", Base: "m0:d1"}, {Name: "d2", Base: "m0:b0"}}}
 	top0 := &sg.Node{Kind: "container", Name: "m0-top", Kids: x.body(w, "m0", 2)}
 	w.mod["m0-top"] = "m0"
 	m0.Nodes = []*sg.Node{top0}
@@ -868,6 +868,29 @@ func checkCase(c Case) fw.Outcome {
 						return out
 					}
 				}
+				if i == 2 && bytes.Contains(b, []byte("xmlns:m")) {
+					// ... and so is the document in which the prefix of each such value is spelt like the name of the OTHER
+					// module and a second declaration binds the value's old prefix to the other module's namespace: a value has
+					// one prefix, and what it is bound to is what the element says
+					out.Labels = append(out.Labels, "xml-prefix-swapped")
+					b4 := xmlnsRe.ReplaceAllFunc(b, func(m []byte) []byte {
+						sm := xmlnsRe.FindSubmatch(m)
+						d := string(sm[1])
+						o := map[string]string{"0": "1", "1": "0"}[d]
+						return []byte(`xmlns:m` + o + `="` + string(sm[2]) + `" xmlns:m` + d + `="urn:verif:m` + o + `">m` + o + `:`)
+					})
+					got4, err4, pan4 := decode(i, res.MS, b4, validate)
+					if pan4 != nil || err4 != nil {
+						out.Violation = fmt.Sprintf("XML: the encoding with the namespace prefixes spelt like the other module's name does not decode: %v %v\nencoding: %s\n%s", pan4, err4, b4, src)
+						return out
+					}
+					var g4 strings.Builder
+					canon(oi, got4.Kids, 0, &g4, false)
+					if g4.String() != wb.String() {
+						out.Violation = fmt.Sprintf("XML: the encoding with the namespace prefixes spelt like the other module's name decodes to another tree\n--- original\n%s--- decoded\n%s--- encoding\n%s\n%s", wb.String(), g4.String(), b4, src)
+						return out
+					}
+				}
 				if i == 2 {
 					// the same document with list entries interleaved with their siblings is an encoding of the same tree
 					if b3, ok := interleavedXML(b); ok {
@@ -895,7 +918,7 @@ func checkCase(c Case) fw.Outcome {
 		}
 		// RFC 7951 section 6.8: an identity of the leaf's own module may also be written with the module name.  The JSON
 		// encodings of the tree with such identities respelt decode to the same tree (in either spelling).
-		ownIdents := map[string][]string{"m0": {"d1", "d2"}, "m1": {"e1"}}
+		ownIdents := map[string][]string{"m0": {"d1", "d2"}, "m1": {"e1", "d2"}}
 		respelt := 0
 		var respell func(ds []*D) []*D
 		respell = func(ds []*D) []*D {
